@@ -7,7 +7,7 @@ use crate::engine::*;
 use crate::props::c01::{mk, ymd_of};
 use crate::refmodel::civil::*;
 use crate::refmodel::lunar::*;
-use tyme4rs::tyme::lunar::{LunarDay, LunarMonth};
+use tyme4rs::tyme::lunar::{LunarDay, LunarMonth, LunarYear};
 use tyme4rs::tyme::Tyme;
 
 type LD = (i32, i8, u8);
@@ -250,6 +250,46 @@ fn check_lunation(ctx: &Ctx, civ: &Civil, t: &LunTable, i: usize, loc: &mut Loca
   }
 }
 
+fn reform_era(y: isize) -> bool {
+  (7..=26).contains(&y) || (235..=241).contains(&y)
+}
+
+/// (d) list order = chronological order: the months a lunar year hands out, taken in list order, start on strictly
+/// increasing civil days (each one the previous first day + the previous month's day count) and the lunar days built from
+/// neighbouring elements compare before/after accordingly.
+fn check_year_list_order(ctx: &Ctx, y: isize, loc: &mut Local) {
+  loc.states += 1;
+  let key = format!("{:04}", y);
+  let rp = vec!["listorder".to_string(), y.to_string()];
+  let r = guard(|| {
+    let ms = LunarYear::from_year(y).get_months();
+    let mut bad: Vec<String> = Vec::new();
+    for w in ms.windows(2) {
+      let (a, b) = (&w[0], &w[1]);
+      let fa = a.get_days().swap_remove(0);
+      let fb = b.get_days().swap_remove(0);
+      let (sa, sb) = (fa.get_solar_day(), fb.get_solar_day());
+      let gap = sb.subtract(sa);
+      let (ab, ba, aa, bb) = (fa.is_before(fb.clone()), fb.is_after(fa.clone()), fa.is_after(fb.clone()), fb.is_before(fa.clone()));
+      if gap != a.get_day_count() as isize || !ab || !ba || aa || bb {
+        bad.push(format!("list neighbours {} (first day {}, {} days) and {} (first day {}): civil gap {}, first.is_before(second)={}, second.is_after(first)={}", a, sa, a.get_day_count(), b, sb, gap, ab, ba));
+      }
+    }
+    (ms.len(), bad)
+  });
+  match r {
+    Ok((n, bad)) => {
+      loc.transitions += n as u64;
+      if bad.is_empty() {
+        loc.oc("year_list_order_ok");
+      } else {
+        ctx.violation("list_order", key, bad.join("; "), rp);
+      }
+    }
+    Err(m) => ctx.violation("list_order", key, format!("panics: {}", m), rp),
+  }
+}
+
 pub fn run(ctx: &Ctx) {
   ctx.assume("lunar month order = model order of the lunation table (leap month directly after its twin); chronological position of a lunar day = first-day JD of its month + day - 1");
   let civ = Civil::build();
@@ -308,6 +348,15 @@ pub fn run(ctx: &Ctx) {
     }
   });
   ctx.subspace(&format!("(b)(c) {} lunations x candidate days 0..31 (acceptance, lunar->solar->lunar), order pairs with the next two lunations x days {{1,2,15,last}}^2, LunarDay.next(n) on first/last days, non-existent leap months", idx.len()), done, idx.len() as u64);
+  // (d) list order of every lunar year's months (both tiers)
+  let done = par_chunks(ctx, 1, 9999, 25, |a, b, l| {
+    for y in a..b {
+      if !reform_era(y as isize) {
+        check_year_list_order(ctx, y as isize, l);
+      }
+    }
+  });
+  ctx.subspace("(d) months handed out by LunarYear::get_months() of lunar years 1..9998 (reform-era years 7-26 / 235-241 are judged by C03 and the known findings): neighbouring list elements start on civil days exactly one month length apart and their first days compare before/after in list order", done, 9998 - 27);
   for d in [(2020, 5, 23), (2020, 6, 21), (1582, 10, 15), (9, 1, 10), (9999, 12, 31)] {
     ctx.sample(match lunar_of(d) {
       Ok((l, back, len)) => format!("civil {} -> lunar {} (month of {} days) -> civil {}", fmt_ymd(d), lfmt(l), len, fmt_ymd(back)),
@@ -329,6 +378,10 @@ pub fn replay(ctx: &Ctx, args: &[String]) {
         println!("  civil {} -> {:?}", fmt_ymd(civ.date(k)), lunar_of(civ.date(k)).map(|(l, b, n)| format!("lunar {} (len {}) -> civil {}", lfmt(l), n, fmt_ymd(b))));
       }
       check_dates(ctx, &civ, &t, o, o + 1, &mut l);
+    }
+    "listorder" => {
+      println!("replay C02 list order of lunar year {}", nums[0]);
+      check_year_list_order(ctx, nums[0], &mut l);
     }
     _ => {
       let y = nums[0];
